@@ -26,7 +26,7 @@ def expectedPins : List (String × String) := [
   ("fmp4PickLeadingTrack", "1c8fec0d014713f9"),
   ("findFirstPartTrackOfLeadingTrack", "2bb7fd75aa060dbc"),
   ("findTimeScaleOfLeadingTrack", "85f8749fc2e183db"),
-  ("clientStreamProcessorFMP4.processSegment", "ac1e07081f019abd"),
+  ("clientStreamProcessorFMP4.processSegment", "5a26127ffe25d210"),
   ("clientStreamProcessorFMP4.joinTrackProcessors", "9b67fbf57153c1f7"),
   ("clientStreamProcessorFMP4.onPartTrackProcessed", "79fdd0fea3e6310b"),
   ("clientStreamProcessorFMP4.initializeTrackProcessors", "75c37fc75a806c4b"),
@@ -57,7 +57,8 @@ def expectedPins : List (String × String) := [
   ("clientPrimaryDownloader.run", "0ed55d1a61bd5908"),
   ("Client.setTracks", "4764167e8a5ccd23"),
   ("Client.setLeadingTimeConv", "338b48de7e533bd9"),
-  ("Client.runInner", "5301bc90c6ec7920")
+  ("Client.runInner", "5301bc90c6ec7920"),
+  ("partsAreEmpty", "3dee11df7aa86480")
 ]
 
 theorem c13_source_pins : pins = expectedPins := by decide
@@ -78,6 +79,13 @@ theorem c13_rejections_present :
     genFlags.renditionOneTrack = true ∧ genFlags.maxTracksFMP4 = true ∧ genFlags.maxTracksTS = true ∧
     genFlags.noSupportedTS = true ∧ genFlags.noLeadingDataTS = true ∧ genFlags.noGroup = true ∧
     genFlags.noTracks = true ∧ genFlags.tooLate = true ∧ genFlags.capsDTSRTC = true ∧ genFlags.dropsNegativePTS = true := by
+  decide
+
+/-- The repair of F15 is present: a segment / part in which no part-track has a sample is skipped (on every stream), and a
+    leading stream that reaches its end without ever having defined the time origin ends with an error instead of leaving
+    the other streams waiting for it (`c13_guards_present` needs the latter: without it the model wedges, see the example). -/
+theorem c13_f15_repair_present :
+    genFlags.skipsEmptySegments = true ∧ genFlags.skipsEmptyLeadingToo = true ∧ genFlags.leadingEndNeedsOrigin = true := by
   decide
 
 /-- Coverage of the type switches over EVERY implementation of `fmp4.Codec` in mediacommon: a kind `FromFMP4`
@@ -195,13 +203,14 @@ example : clientRun { genFlags with invPosNegative := false } 0 .media
 
 /-- Processing one fMP4 segment is structural recursion over the decoded value (the definitions of
     `fmp4ProcessSegment`, `fmp4PushLoop`, `fmp4Process` are accepted by Lean as such, hence total), and what it does
-    is bounded by the size of that value: at most one event per part-track plus one per sample. -/
+    is bounded by the size of that value: at most one event per part-track plus one per sample (plus the one
+    `skippedSegment` event of an all-empty segment). -/
 theorem c13_progress_fmp4_segment (F : Flags) (G : F.Guarded) (elapsed : Int) (s : FStream) (hs : FOK s) (c : ClientSt)
     (hc : ConvOK c) (hp : s.procs.isSome = true → IsFMP4 c) (dateTime : Option Int) (parts : Parts)
     (s' : FStream) (c' : ClientSt) (evs : List Event)
     (h : fmp4ProcessSegment F elapsed s c dateTime (some parts) = .ok (s', c', evs)) :
-    evs.length ≤ ((parts.flatten).map fun pt => 1 + pt.samples.length).sum :=
-  (Res.sat_elim (fmp4ProcessSegment_sat F G.f c13_fmp4_codec_coverage.2.1 elapsed s hs c hc hp dateTime (some parts)) h).2.2.2.2.2 parts rfl
+    evs.length ≤ ((parts.flatten).map fun pt => 1 + pt.samples.length).sum + 1 :=
+  (Res.sat_elim (fmp4ProcessSegment_sat F G.f c13_fmp4_codec_coverage.2.1 elapsed s hs c hc hp dateTime (some parts)) h).2.2.2.2.1 parts rfl
 
 /-- Same for an MPEG-TS segment: at most one event per reader call-back / decode error. -/
 theorem c13_progress_mpegts_segment (F : Flags) (G : F.Guarded) (elapsed : Int) (s : TStream) (st : TSState) (c : ClientSt)
@@ -364,16 +373,76 @@ theorem c13_too_many_tracks_mpegts (F : Flags) (hg : F.maxTracksTS = true) (isLe
     rw [if_pos hmany]
     exact ⟨_, rfl⟩
 
-/-- Missing leading-track data ⇒ error (fMP4): a segment without a part-track of the leading id. -/
+/-- Missing leading-track data ⇒ error (fMP4), stated precisely after the repair of F15: a segment that carries at least one
+    sample but no part-track of the stream's leading track is an error — for every stream and every flag assignment. -/
 theorem c13_no_leading_data_fmp4 (F : Flags) (hg : F.noLeadingDataFMP4 = true) (elapsed : Int) (s : FStream) (c : ClientSt)
-    (dateTime : Option Int) (parts : Parts) (hno : ∀ pt ∈ parts.flatten, pt.id ≠ s.leadingTrackID) :
+    (dateTime : Option Int) (parts : Parts) (hno : ∀ pt ∈ parts.flatten, pt.id ≠ s.leadingTrackID)
+    (hsome : ∃ pt ∈ parts.flatten, pt.samples ≠ []) :
     fmp4ProcessSegment F elapsed s c dateTime (some parts) = .error .noLeadingData := by
   unfold fmp4ProcessSegment
   have : findFirstPT parts s.leadingTrackID = none := by
     apply List.find?_eq_none.mpr
     intro pt hpt
     simpa using hno pt hpt
-  simp [this, hg]
+  have hne : partsEmpty parts = false := by
+    obtain ⟨pt, hpt, hs⟩ := hsome
+    cases h : partsEmpty parts with
+    | false => rfl
+    | true =>
+      have := List.all_eq_true.mp h pt hpt
+      simp [List.isEmpty_iff] at this
+      exact absurd this hs
+  simp [this, hg, hne]
+
+/-- Repair of F15: a segment / part in which no part-track has a sample (and which therefore has nothing of the leading track
+    either) is SKIPPED: no error, no delivery, and nothing is touched — the stream processor (in particular its lazily
+    created track processors: an empty FIRST segment creates none, defines no origin and does not wait for one) and the
+    client's time converter are exactly as before, so later segments are processed as if the empty one had not been there.
+    (`hl`: the code that exists skips on every stream; a rendition-only variant of the guard is covered too.) -/
+theorem c13_empty_segment_skipped (F : Flags) (hf : F.skipsEmptySegments = true) (elapsed : Int) (s : FStream)
+    (hl : F.skipsEmptyLeadingToo = true ∨ s.isLeading = false) (c : ClientSt) (dateTime : Option Int) (parts : Parts)
+    (hno : ∀ pt ∈ parts.flatten, pt.id ≠ s.leadingTrackID) (hempty : ∀ pt ∈ parts.flatten, pt.samples = []) :
+    fmp4ProcessSegment F elapsed s c dateTime (some parts) = .ok (s, c, [.skippedSegment]) := by
+  unfold fmp4ProcessSegment
+  have : findFirstPT parts s.leadingTrackID = none := by
+    apply List.find?_eq_none.mpr
+    intro pt hpt
+    simpa using hno pt hpt
+  have he : partsEmpty parts = true := by
+    apply List.all_eq_true.mpr
+    intro pt hpt
+    simp [hempty pt hpt]
+  cases hl with
+  | inl h => simp [this, hf, h, he]
+  | inr h => simp [this, hf, h, he]
+
+/-- … hence, for a segment without leading-track data: error ⇔ some part-track has a sample; skipped ⇔ none has. -/
+theorem c13_no_leading_data_iff (F : Flags) (hg : F.noLeadingDataFMP4 = true) (hf : F.skipsEmptySegments = true) (elapsed : Int)
+    (s : FStream) (hl : F.skipsEmptyLeadingToo = true ∨ s.isLeading = false) (c : ClientSt) (dateTime : Option Int) (parts : Parts)
+    (hno : ∀ pt ∈ parts.flatten, pt.id ≠ s.leadingTrackID) :
+    (fmp4ProcessSegment F elapsed s c dateTime (some parts) = .error .noLeadingData ↔ ∃ pt ∈ parts.flatten, pt.samples ≠ []) ∧
+    (fmp4ProcessSegment F elapsed s c dateTime (some parts) = .ok (s, c, [.skippedSegment]) ↔ ∀ pt ∈ parts.flatten, pt.samples = []) := by
+  by_cases h : ∃ pt ∈ parts.flatten, pt.samples ≠ []
+  · have e := c13_no_leading_data_fmp4 F hg elapsed s c dateTime parts hno h
+    refine ⟨⟨fun _ => h, fun _ => e⟩, ⟨fun h2 => ?_, fun h2 => ?_⟩⟩
+    · rw [e] at h2; cases h2
+    · obtain ⟨pt, hpt, hne⟩ := h; exact absurd (h2 pt hpt) hne
+  · have hall : ∀ pt ∈ parts.flatten, pt.samples = [] := by
+      intro pt hpt
+      by_cases hs' : pt.samples = []
+      · exact hs'
+      · exact absurd ⟨pt, hpt, hs'⟩ h
+    have e := c13_empty_segment_skipped F hf elapsed s hl c dateTime parts hno hall
+    refine ⟨⟨fun h2 => ?_, fun h2 => absurd h2 h⟩, ⟨fun _ => hall, fun _ => e⟩⟩
+    rw [e] at h2; cases h2
+
+/-- A leading fMP4 stream of which every segment was skipped (it never created its track processors, so it never defined the
+    time origin) does not end normally: reaching the end of the stream is the error the missing leading-track data would
+    have been. Progress is not affected by skipping: every skipped piece was downloaded by one iteration of a download
+    loop (`c13_progress_traditional` / `_low_latency`: pushes ≤ requests, iterations ≤ server answers + 1). -/
+theorem c13_leading_without_origin_is_error (F : Flags) (hg : F.leadingEndNeedsOrigin = true) (s : FStream)
+    (hl : s.isLeading = true) (hp : s.procs = none) : streamEnd F (.fmp4 s) = .error .noLeadingData := by
+  simp [streamEnd, hg, hl, hp]
 
 /-- Missing leading-track data ⇒ error (MPEG-TS): a segment in which the leading track is never called back. -/
 theorem c13_no_leading_data_mpegts (F : Flags) (hg : F.noLeadingDataTS = true) (elapsed : Int) (s : TStream) (st : TSState)
@@ -381,18 +450,14 @@ theorem c13_no_leading_data_mpegts (F : Flags) (hg : F.noLeadingDataTS = true) (
     ∀ r, tsProcessSegment F elapsed s st c dateTime items ≠ .ok r :=
   tsProcessSegment_noLeading F hg elapsed s st c dateTime items hno
 
-/-- Mixed container types between renditions ⇒ error: an fMP4 rendition under an MPEG-TS leading stream … -/
-theorem c13_mixed_fmp4_under_mpegts (F : Flags) (hg : F.checksConvKindFMP4 = true) (hl : F.noLeadingDataFMP4 = true) (elapsed : Int)
-    (s : FStream) (hs : s.isLeading = false) (hp : s.procs = none) (t : TConv) (dateTime : Option Int) (payload : Option Parts) :
-    ∃ e, fmp4ProcessSegment F elapsed s { conv := some (.ts t) } dateTime payload = .error e := by
+/-- Mixed container types between renditions ⇒ error: an fMP4 rendition under an MPEG-TS leading stream, at its first segment
+    that carries data of its track (all-empty segments are skipped before, `c13_empty_segment_skipped`) … -/
+theorem c13_mixed_fmp4_under_mpegts (F : Flags) (hg : F.checksConvKindFMP4 = true) (elapsed : Int)
+    (s : FStream) (hs : s.isLeading = false) (hp : s.procs = none) (t : TConv) (dateTime : Option Int) (parts : Parts)
+    (lpt : PartTrack) (hl : findFirstPT parts s.leadingTrackID = some lpt) :
+    fmp4ProcessSegment F elapsed s { conv := some (.ts t) } dateTime (some parts) = .error .mixedContainers := by
   unfold fmp4ProcessSegment
-  cases payload with
-  | none => exact ⟨_, rfl⟩
-  | some parts =>
-    simp only
-    split
-    · simp [hl]
-    · simp [hp, fmp4InitProcs, hs, hg, Bind.bind, Res.bind]
+  simp [hl, hp, fmp4InitProcs, hs, hg, Bind.bind, Res.bind]
 
 /-- … and an MPEG-TS rendition under an fMP4 leading stream, at the first call-back of its leading track. -/
 theorem c13_mixed_mpegts_under_fmp4 (F : Flags) (hg : F.checksConvKindTS = true) (elapsed : Int) (s : TStream)
@@ -433,10 +498,44 @@ example : (match clientRun genFlags 0 (.multi true (some true))
        files := [.parts [[{ id := 1, baseTime := 5, samples := [] }]]] },
      { first := .media (vod 1 false), files := [.ts { kinds := ["MPEG4Audio"], items := [.sample 0 0 0 1] }] }] with
     | .error .mixedContainers _ => true | _ => false) = true := by decide
+/-- F15: a rendition whose FIRST and MIDDLE segments carry no sample (a `moof` without `traf`, what the muxer serves when the
+    audio track wrote nothing between two cuts): both are skipped, the third is delivered, the client ends with EOS … -/
+def f15Lead : StreamIn :=
+  { first := .media (vod 3 true), reloads := [.media (vod 3 true), .media (vod 3 true)], init := some [{ id := 1, timeScale := 90000, kind := "H264" }],
+    files := [.parts [[{ id := 1, baseTime := 900, samples := [{ dur := 300, off := 0, pid := 1 }] }]],
+              .parts [[{ id := 1, baseTime := 1200, samples := [{ dur := 300, off := 0, pid := 2 }] }]],
+              .parts [[{ id := 1, baseTime := 1500, samples := [{ dur := 300, off := 0, pid := 3 }] }]]] }
+def f15Rend : StreamIn :=
+  { first := .media (vod 3 true), reloads := [.media (vod 3 true), .media (vod 3 true)], init := some [{ id := 1, timeScale := 48000, kind := "MPEG4Audio" }],
+    files := [.parts [[]], .parts [[]], .parts [[{ id := 1, baseTime := 800, samples := [{ dur := 160, off := 0, pid := 9 }] }]]] }
+example : clientRun genFlags 0 (.multi true (some true)) [f15Lead, f15Rend] =
+    .skip [(some "H264", 90000), (some "MPEG4Audio", 48000)]
+      [.delivered 0 1 0 0, .delivered 0 2 300 300, .delivered 0 3 600 600, .skippedSegment, .skippedSegment, .delivered 1 9 320 320] := by
+  decide
+/-- … without the repair the same content ends with "could not find data of leading track" … -/
+example : (match clientRun { genFlags with skipsEmptySegments := false } 0 (.multi true (some true)) [f15Lead, f15Rend] with
+    | .error .noLeadingData _ => true | _ => false) = true := by decide
+/-- … an all-empty segment in the middle of the LEADING stream is skipped as well … -/
+example : (match clientRun genFlags 0 (.multi true (some true))
+    [{ f15Lead with files := [.parts [[{ id := 1, baseTime := 900, samples := [{ dur := 300, off := 0, pid := 1 }] }]], .parts [[]],
+                              .parts [[{ id := 1, baseTime := 1500, samples := [{ dur := 300, off := 0, pid := 3 }] }]]] }, f15Rend] with
+    | .skip _ evs => evs.length | _ => 0) = 6 := by decide
+/-- … but a leading stream that carries no sample at all, while a rendition has data waiting for its origin, ends with an error … -/
+example : (match clientRun genFlags 0 (.multi true (some true)) [{ f15Lead with files := [.parts [[]], .parts [[]], .parts [[]]] }, f15Rend] with
+    | .error .noLeadingData _ => true | _ => false) = true := by decide
+/-- … which is needed: with the skip but without that end-of-stream guard the rendition would wait for ever (`wedge`; the real
+    client does: Wait() never yields) … -/
+example : clientRun { genFlags with leadingEndNeedsOrigin := false } 0 (.multi true (some true))
+    [{ f15Lead with files := [.parts [[]], .parts [[]], .parts [[]]] }, f15Rend] = .wedge := by decide
+/-- … and so is a rendition segment that has samples, but of another track only. -/
+example : (match clientRun genFlags 0 (.multi true (some true))
+    [f15Lead, { f15Rend with files := [.parts [[{ id := 5, baseTime := 0, samples := [{ dur := 1, off := 0, pid := 7 }] }]]] }] with
+    | .error .noLeadingData _ => true | _ => false) = true := by decide
+
 /-- no leading-track data in the second segment -/
 example : (match clientRun genFlags 0 .media
     [{ first := .media (vod 2 true), reloads := [.media (vod 2 true)], init := some [{ id := 1, timeScale := 90000, kind := "H264" }, { id := 2, timeScale := 48000, kind := "Opus" }],
-       files := [.parts [[{ id := 1, baseTime := 5, samples := [] }]], .parts [[{ id := 2, baseTime := 5, samples := [] }]]] }] with
+       files := [.parts [[{ id := 1, baseTime := 5, samples := [] }]], .parts [[{ id := 2, baseTime := 5, samples := [{ dur := 1, off := 0, pid := 4 }] }]]] }] with
     | .error .noLeadingData _ => true | _ => false) = true := by decide
 
 end Hls.Props.C13
